@@ -47,6 +47,9 @@ def plum_to_kiwi_future(plum_future: futures.Future) -> kiwipy.Future:
     kiwi_future = kiwipy.Future()
 
     def on_done(_plum_future: futures.Future) -> None:
+        if kiwi_future.done():
+            # The consumer cancelled the kiwi future in the meantime: nothing to deliver
+            return
         with kiwipy.capture_exceptions(kiwi_future):
             if plum_future.cancelled():
                 kiwi_future.cancel()
